@@ -109,6 +109,27 @@ Section Model.
   Definition angle_fse_simpleshear (s : F) : F :=
     rad2deg (natan (nsqrt (s * s + one) + s)).
 
+  (* np.clip(x, lo, hi) = minimum(maximum(x, lo), hi) *)
+  Definition clip (x lo hi : F) : F :=
+    let y := if ltb x lo then lo else x in if ltb hi y then hi else y.
+
+  (* vector - plane * np.dot(vector, plane) *)
+  Definition project_out (v p : vec3) : vec3 :=
+    let d := dot3 v p in (vx v - vx p * d, vy v - vy p * d, vz v - vz p * d).
+
+  (* diagnostics.smallest_angle (a numba kernel: scalar division by zero raises ZeroDivisionError):
+     the angle in degrees, folded into [0, 90], between `vector` -- projected onto the plane with
+     unit normal `plane` when one is given -- and the bidirectional `axis` *)
+  Definition smallest_angle_core (v a : vec3) : res F :=
+    let d := norm3 v * norm3 a in
+    if eqb d zero then Err DivZero
+    else
+      let ang := rad2deg (nacos (clip (dot3 v a / d) (ofZ (-1)) one)) in
+      if ltb (ofZ 90) ang then Ok (ofZ 180 - ang) else Ok ang.
+
+  Definition smallest_angle (v a : vec3) (plane : option vec3) : res F :=
+    smallest_angle_core (match plane with Some p => project_out v p | None => v end) a.
+
   (* frame rotation of a set of passive orientation matrices: every row a -> Q a,
      i.e. o -> o . Q^T *)
   Definition mulv (Q : mat3) (v : vec3) : vec3 :=
